@@ -58,11 +58,15 @@ func (t *MemTable) Delete(key []byte, seqNum uint64) (full bool) {
 // ScanPrefix returns all entries matching the prefix in ascending order. This
 // method transparently omits deleted entries.
 func (t *MemTable) ScanPrefix(prefix []byte) iter.Seq[kv.Entry] {
+	return kv.WithoutDeletes(t.ScanPrefixWithDeletes(prefix))
+}
+
+// ScanPrefixWithDeletes returns all entries matching the prefix in ascending
+// order including the deleted entries, which callers need when merging with
+// older tables.
+func (t *MemTable) ScanPrefixWithDeletes(prefix []byte) iter.Seq[kv.Entry] {
 	return func(yield func(kv.Entry) bool) {
 		for node := range t.zt.AscendPrefix(prefix) {
-			if isDeleteOp(node) {
-				continue
-			}
 			if !yield(newEntryFromNode(node)) {
 				return
 			}
